@@ -15,4 +15,5 @@ var Registry = map[string]func(Args) error{
 	"watchdog":    Watchdog,
 	"closenotify": CloseNotify,
 	"serial":      Serial,
+	"isolation":   Isolation,
 }
